@@ -4,6 +4,7 @@ import (
 	"encoding/json"
 	"fmt"
 	"os"
+	"os/exec"
 	"path/filepath"
 	"sort"
 	"strconv"
@@ -362,6 +363,10 @@ func runCheck(repo, verif, prop, tier string, timeout, par int, keep bool) int {
 			isBroken = "the trusted sdk.Dec / sdk.Int prelude contracts disagree with the real library (see CONFORMANCE-MISMATCH lines): proofs resting on them are void"
 		}
 	}
+	// thorough tier, C03: the arithmetic content of the trusted axiom A-SUM (theory/mapsum.smt2) is re-checked in Lean
+	if tier == "thorough" && prop == "C03" {
+		leanSummary = runLeanLemmas(verif, []string{"ASum.lean"})
+	}
 	for _, m := range missing {
 		report(&replayFile{Property: prop, Obligation: m + "#engine:missing", Kind: "engine", Verdict: "engine-error", Output: "obligation " + m + " is part of the committed baseline of this property but was not generated on this tree (contract removed or function renamed)"}, "no-failing-input-found")
 	}
@@ -518,6 +523,9 @@ func writeEvidence(path, prop, tier string, seed int, results []*FuncResult, byS
 	if confSummary != nil {
 		cov["prelude_conformance"] = confSummary
 	}
+	if leanSummary != nil {
+		cov["lean_lemmas"] = leanSummary
+	}
 	if len(scenarioRuns) > 0 {
 		cov["scenario_replays"] = scenarioRuns // thorough tier: scenarios of discharged obligations replayed on the real code (dynamic cross-check, not proof)
 	}
@@ -539,4 +547,31 @@ func writeEvidence(path, prop, tier string, seed int, results []*FuncResult, byS
 
 func round3(f float64) float64 {
 	return float64(int(f*1000+0.5)) / 1000
+}
+
+// leanSummary: outcome of re-checking the arithmetic behind trusted theory axioms in Lean (thorough tier)
+var leanSummary map[string]interface{}
+
+// runLeanLemmas type-checks /verif/lean/<file> with the installed Lean + Mathlib. The theorems state, over Finset and
+// List sums, the facts the SMT theory assumes about its sum symbols; the identification of those symbols with the
+// Lean sums (by their update equations) is not machine-checked. A failure does not make the property fail: it is
+// recorded, and the axiom stays listed as trusted either way.
+func runLeanLemmas(verif string, files []string) map[string]interface{} {
+	out := map[string]interface{}{"back_end": "lean 4 + mathlib (installed toolchain)", "note": "arithmetic content of A-SUM only; the correspondence between msum2/lsum and these sums rests on their defining equations"}
+	var rs []map[string]interface{}
+	for _, f := range files {
+		t0 := time.Now()
+		cmd := exec.Command("lean", filepath.Join(verif, "lean", f))
+		b, err := cmd.CombinedOutput()
+		r := map[string]interface{}{"file": "lean/" + f, "accepted": err == nil && !strings.Contains(string(b), "error"), "time_s": time.Since(t0).Seconds()}
+		if err != nil || strings.Contains(string(b), "error") {
+			r["output"] = truncate(string(b), 800)
+			fmt.Printf("lean: %s NOT accepted (A-SUM stays a trusted axiom): %s\n", f, truncate(string(b), 300))
+		} else {
+			fmt.Printf("lean: %s accepted in %.1fs (theorems list_sum_le_map_sum, map_sum_update)\n", f, time.Since(t0).Seconds())
+		}
+		rs = append(rs, r)
+	}
+	out["files"] = rs
+	return out
 }
